@@ -274,6 +274,18 @@ def run(ctx):
                 check_msm(ctx, identity, enc, first, par)
                 if j % 2:  # the same payload under the other option right afterwards
                     check_msm(ctx, identity, enc, 3 - first, par)
+                if j % 5 == 2:
+                    # another frame of the SAME station and epoch (an epoch split over several frames) right afterwards
+                    keep = {k_: int(v_) for k_, v_ in enc.expected_dict().items()
+                            if k_ in ("DF003", refmsm.EPOCH_FIELD[identity[:3]], "DF416") and isinstance(v_, int)}
+                    try:
+                        enc_b = refmodel.build(identity, random.Random(seedtag + 7), "random", "small",
+                                               refmodel.MSTRATS[(j + k + 3) % len(refmodel.MSTRATS)], force=keep)
+                    except (RuntimeError, refmodel.DefinitionError, KeyError):
+                        enc_b = None
+                    if enc_b is not None and enc_b.payload != enc.payload:
+                        check_msm(ctx, identity, enc_b, first, dict(par, payload=enc_b.payload.hex(), after=enc.payload.hex()))
+                        ctx.hit("same_station_and_epoch_pairs")
         elif identity == "4076_201":
             pass
         else:
@@ -322,6 +334,17 @@ def run(ctx):
             if len(enc.meta.get("layers", [])) != layers:
                 continue  # did not fit 1023 bytes with that many layers
             check_harm(ctx, enc, {"kind": "harm", "payload": enc.payload.hex()})
+            if layers >= 2:
+                # two layers of the SAME height (what keys a result by height collapses them)
+                f3 = dict(force)
+                f3["IDF036_01"] = f3["IDF036_02"] = rng.getrandbits(8)
+                try:
+                    enc3 = refmodel.build("4076_201", random.Random(seedtag + 2), "random", "small", force=f3)
+                except (RuntimeError, refmodel.DefinitionError, KeyError):
+                    enc3 = None
+                if enc3 is not None and len(enc3.meta.get("layers", [])) == layers:
+                    check_harm(ctx, enc3, {"kind": "harm", "payload": enc3.payload.hex()})
+                    ctx.hit("harm_equal_heights")
             if layers <= 2:
                 # a re-issued model: SAME epoch / IOD / provider / solution / layer shape, other coefficients, parsed right
                 # after the first (whose message object has been freed by then)
